@@ -91,6 +91,10 @@ def oracle(line: str, obs: Obs):
     fails = []
     peers = [p["name"] for p in cfg["peers"]]
     realms = {cfg["realm"]: []}
+    # (a realm for which the node has a default peer is served: requests for it are routed there)
+    for p in cfg["peers"]:
+        if p["default"]:
+            realms.setdefault(p["realm"], [])
     # routing table, in the order Node.add_application builds it
     for ai, a in enumerate(cfg["apps"]):
         for pi in a["peers"]:
@@ -242,6 +246,19 @@ def scenarios(rng: random.Random, tier: str):
     prek = xk + " | start | acc | acc | " + handshake(0, "peer1.x") + " | " + handshake(1, "peer2.x")
     out.append(prek + " | " + " | ".join(req(c, h, r, a) for c, h in ((0, "peer1.x"), (1, "peer2.x"))
                                          for r in ("realm.local", "partner.org", "foreign.realm") for a in (4, 77)))
+    # the capabilities exchange announced only some of the node's applications (or a relay id, or other ids altogether): a
+    # request for any registered application of that peer is delivered all the same
+    for announced in (("4", ""), ("", ",acct=3"), ("99", ",acct=98"), ("4294967295", ""), ("3", ",acct=4")):
+        hbh[0] += 1
+        ce = f"rx 1 " + nodegen.cer("peer2.x", announced[0], hbh[0], 8000 + hbh[0], extra=announced[1])
+        out.append(xr + " | start | acc | acc | " + handshake(0, "peer1.x") + " | " + ce + " | " +
+                   " | ".join(req(1, "peer2.x", r, a) for r in ("realm.local", "realm.b") for a in (4, 3)))
+    # no peer and no application peer carries the node's own realm: the own realm is served all the same (3007, not 3003)
+    xo = ("NODE host=node.local;realm=realm.local;peer:peer1.x,alpha.net,0,0,30,1,0,-,-,-,-;"
+          "peer:peer2.x,beta.net,0,0,30,1,1,-,-,-,-;app:4,1,0,b,0,0,roam.net")
+    preo = xo + " | start | acc | acc | " + handshake(0, "peer1.x") + " | " + handshake(1, "peer2.x")
+    out.append(preo + " | " + " | ".join(req(c, h, r, a) for c, h in ((0, "peer1.x"), (1, "peer2.x"))
+                                         for r in ("realm.local", "alpha.net", "beta.net", "roam.net", "foreign.realm") for a in (4, 77)))
     dial = ("NODE host=node.local;realm=realm.local;peer:peer1.x,realm.local,1,0,30,1,0,-,-,-,-;"
             "peer:peer2.x,realm.local,1,0,30,1,0,-,-,-,-;peer:peer3.x,realm.local,1,0,30,1,0,-,-,-,-;"
             "app:4,1,0,b,0,0,-;app:4,1,0,b,0,1,-")
